@@ -1,5 +1,7 @@
 import Goyang.Spec.Uses
 import Goyang.Lemmas.Uses
+import Goyang.Lemmas.UsesVisit
+import Goyang.Lemmas.UsesCache
 import Goyang.Lemmas.Deviate
 import Goyang.Model.TypesLite
 /-
@@ -42,7 +44,7 @@ backing array), not drv_res.
 -/
 namespace Goyang.Props.C06
 open Goyang.Model Goyang.Spec.Uses
-open Goyang.Lemmas.Uses (bindFuel importedErrors names usesStep found)
+open Goyang.Lemmas.Uses (bindFuel importedErrors names usesStep found ReachNamesDistinct)
 open Goyang.Lemmas.Deviate (NameStable)
 
 /-! ### binding -/
@@ -137,6 +139,49 @@ theorem binding_is_nearest (reg : Registry) (linked : List Nat) (root : Mod) (in
         exact this inner hx hl
     · obtain ⟨s, hs, h1, h2, h3⟩ := Lemmas.Uses.found_some (ms := searchOrder reg linked root) h
       exact ⟨s, Lemmas.Uses.visit_reach reg linked _ root [] s hs, h1, h2, h3⟩
+
+/-! ### the whole module: the search order lists exactly the files reached by include / belongs-to -/
+
+/-- **search_order_sound.**  Every file in the search order from `m` is reached from `m` through
+include statements (of linked (sub)modules) and belongs-to statements. -/
+theorem search_order_sound (reg : Registry) (linked : List Nat) (m x : Mod) (h : x ∈ searchOrder reg linked m) :
+    Reach reg linked m x :=
+  Lemmas.Uses.visit_reach reg linked _ m [] x h
+
+/-- **search_order_complete.**  Conversely every file reached from `m` is in the search order —
+the depth-first walk with its marked set and its depth bound (number of loaded (sub)modules + 1)
+leaves nothing out — when the reached files have pairwise different names.  (The walk marks
+*names*, like Go's `FindGrouping` does; RFC 7950 5.1 requires module and submodule names to be
+unique.  Without the hypothesis the statement is false: `search_order_needs_distinct_names`.) -/
+theorem search_order_complete (reg : Registry) (linked : List Nat) (m : Mod) (hnames : ReachNamesDistinct reg linked m)
+    (x : Mod) (h : Reach reg linked m x) : x ∈ searchOrder reg linked m :=
+  Lemmas.Uses.visit_complete reg linked m hnames x h
+
+/-- **search_order_iff_reach.**  The two together. -/
+theorem search_order_iff_reach (reg : Registry) (linked : List Nat) (m : Mod) (hnames : ReachNamesDistinct reg linked m)
+    (x : Mod) : x ∈ searchOrder reg linked m ↔ Reach reg linked m x :=
+  Lemmas.Uses.visit_iff_reach reg linked m hnames x
+
+/-- The hypothesis of `search_order_complete` for a loaded start, from a decidable condition on the
+registry: no two loaded (sub)modules have the same name. -/
+theorem names_distinct_of_nodup (reg : Registry) (linked : List Nat) (m : Mod) (hm : m ∈ reg.mods)
+    (h : (reg.mods.map (·.name)).Nodup) : ReachNamesDistinct reg linked m :=
+  Lemmas.Uses.reachNamesDistinct_of_nodup reg linked m hm h
+
+/-- **whole_module_is_searched.**  A grouping declared at the top level of any file of the whole
+module is visible from every file of it: if no enclosing statement of the `uses` declares the
+(unprefixed or own-prefixed) name and some file `s` reached from `root` does, the binding is not
+`none` — and by `binding_is_nearest` it is the declaration in the first such file of the search
+order. -/
+theorem whole_module_is_searched (reg : Registry) (linked : List Nat) (root : Mod) (inner : List Stmt) (name : String)
+    (hnames : ReachNamesDistinct reg linked root) (hlocal : isBare (localName root name) = true)
+    (s : Mod) (hs : Reach reg linked root s) (g : Stmt) (hd : declares s.stmt (localName root name) = some g) :
+    ∃ r, bindGrouping reg linked root inner name = some r := by
+  unfold bindGrouping
+  simp only [hlocal, if_true]
+  cases bindLexical root inner (localName root name) with
+  | some r => exact ⟨r, rfl⟩
+  | none => exact Lemmas.Uses.bindTop_complete reg linked root hnames s hs _ g hd
 
 /-! ### scope -/
 
@@ -252,6 +297,91 @@ theorem container_gets_copy (env : Env) (fuel : Nat) (root : Mod) (inner : List 
   rw [h1]
   simp [Lemmas.Uses.dir0, Entry.dir]
 
+/-- **augment_gets_copy.**  The same for an `augment` statement (converted outside every cache). -/
+theorem augment_gets_copy (env : Env) (fuel : Nat) (root : Mod) (inner : List Stmt) (n u : Stmt)
+    (visiting : List NodeId) (st : TState) (r : GroupingRef) (hn : n.kw = "augment") (hu : u.kw = "uses")
+    (huses : n.all "uses" = [u]) (hinner : ∀ x ∈ inner, isModuleStmt x = false)
+    (hwf : WellFormedRef root (n :: inner) u.arg) (hfuel : bindFuel env.reg root (n :: inner) ≤ 2 * fuel + 16)
+    (hbind : bindGrouping env.reg env.linked root (n :: inner) u.arg = some r)
+    (hnodup : ((denoteGrouping env fuel r visiting st).map (·.name)).Nodup) :
+    ∃ tail, (toEntry env (fuel + 2) root (inner ++ [root.stmt]) n visiting st).1.dir =
+      denoteGrouping env fuel r visiting st ++ tail := by
+  have hinner' : ∀ x ∈ n :: inner, isModuleStmt x = false := by
+    intro x hx
+    rcases List.mem_cons.1 hx with rfl | hx
+    · simp [isModuleStmt, hn]
+    · exact hinner x hx
+  obtain ⟨tail, ht⟩ := Lemmas.Uses.toEntry_augment_uses_first env (fuel + 1) root (inner ++ [root.stmt]) n visiting st hn
+  have hc := uses_is_copy env fuel root (n :: inner) u visiting (Lemmas.Uses.dir0 root n, st) r hu hinner' hwf hfuel hbind
+    (by intro v _; simp [names, Lemmas.Uses.dir0, Entry.dir]) hnodup
+  simp only at hc
+  rw [huses, List.foldl_cons, List.foldl_nil] at ht
+  refine ⟨tail, ?_⟩
+  rw [ht]
+  have h1 := hc.1
+  simp only [List.cons_append] at h1
+  rw [h1]
+  simp [Lemmas.Uses.dir0, Entry.dir]
+
+/-- **grouping_gets_copy.**  A `grouping` statement with a nested `uses` — when its own conversion
+really runs, i.e. it is neither in the grouping cache (then the cached entry is the answer:
+`later_uses_same`) nor under conversion (then the answer is the `cycle` error entry: C01
+`cycles_are_errors`): the same fold as for a container, with the grouping itself added to the
+statements under conversion; the grouping's entry starts with exactly the nested grouping's own
+data nodes, computed in the nested grouping's defining scope. -/
+theorem grouping_gets_copy (env : Env) (fuel : Nat) (root : Mod) (inner : List Stmt) (n u : Stmt)
+    (visiting : List NodeId) (st : TState) (r : GroupingRef) (hn : n.kw = "grouping") (hu : u.kw = "uses")
+    (huses : n.all "uses" = [u]) (hinner : ∀ x ∈ inner, isModuleStmt x = false)
+    (hmiss : st.gcache.find? (·.1 == nodeId root n) = none) (hnv : visiting.contains (nodeId root n) = false)
+    (hwf : WellFormedRef root (n :: inner) u.arg) (hfuel : bindFuel env.reg root (n :: inner) ≤ 2 * fuel + 16)
+    (hbind : bindGrouping env.reg env.linked root (n :: inner) u.arg = some r)
+    (hnodup : ((denoteGrouping env fuel r (nodeId root n :: visiting) st).map (·.name)).Nodup) :
+    ∃ tail, (toEntry env (fuel + 2) root (inner ++ [root.stmt]) n visiting st).1.dir =
+      denoteGrouping env fuel r (nodeId root n :: visiting) st ++ tail := by
+  have hinner' : ∀ x ∈ n :: inner, isModuleStmt x = false := by
+    intro x hx
+    rcases List.mem_cons.1 hx with rfl | hx
+    · simp [isModuleStmt, hn]
+    · exact hinner x hx
+  obtain ⟨tail, ht⟩ := Lemmas.Uses.toEntry_grouping_uses_first env (fuel + 1) root (inner ++ [root.stmt]) n visiting st hn
+    hmiss hnv
+  have hc := uses_is_copy env fuel root (n :: inner) u (nodeId root n :: visiting) (Lemmas.Uses.dir0 root n, st) r hu
+    hinner' hwf hfuel hbind (by intro v _; simp [names, Lemmas.Uses.dir0, Entry.dir]) hnodup
+  simp only at hc
+  rw [huses, List.foldl_cons, List.foldl_nil] at ht
+  refine ⟨tail, ?_⟩
+  rw [ht]
+  have h1 := hc.1
+  simp only [List.cons_append] at h1
+  rw [h1]
+  simp [Lemmas.Uses.dir0, Entry.dir]
+
+/-- **module_gets_copy.**  A `module` or `submodule` statement with a top-level `uses` — when its
+own conversion really runs (not in the module cache, not under conversion): the (sub)module's
+entry starts with exactly the grouping's own data nodes, computed in the grouping's defining
+scope; everything the other fields add (the children of included submodules among them) follows. -/
+theorem module_gets_copy (env : Env) (fuel : Nat) (root : Mod) (u : Stmt)
+    (visiting : List NodeId) (st : TState) (r : GroupingRef)
+    (hn : root.stmt.kw = "module" ∨ root.stmt.kw = "submodule") (hu : u.kw = "uses")
+    (huses : root.stmt.all "uses" = [u])
+    (hmiss : st.cache.find? (·.1 == root.seq) = none) (hnv : visiting.contains (nodeId root root.stmt) = false)
+    (hwf : WellFormedRef root [] u.arg) (hfuel : bindFuel env.reg root [] ≤ 2 * fuel + 16)
+    (hbind : bindGrouping env.reg env.linked root [] u.arg = some r)
+    (hnodup : ((denoteGrouping env fuel r (nodeId root root.stmt :: visiting) st).map (·.name)).Nodup) :
+    ∃ tail, (toEntry env (fuel + 2) root [] root.stmt visiting st).1.dir =
+      denoteGrouping env fuel r (nodeId root root.stmt :: visiting) st ++ tail := by
+  obtain ⟨tail, ht⟩ := Lemmas.Uses.toEntry_module_uses_first env (fuel + 1) root [] root.stmt visiting st hn hmiss hnv
+  have hc := uses_is_copy env fuel root [] u (nodeId root root.stmt :: visiting) (Lemmas.Uses.dir0 root root.stmt, st) r hu
+    (by intro x hx; cases hx) hwf hfuel hbind (by intro v _; simp [names, Lemmas.Uses.dir0, Entry.dir]) hnodup
+  simp only at hc
+  rw [huses, List.foldl_cons, List.foldl_nil] at ht
+  refine ⟨tail, ?_⟩
+  rw [ht]
+  have h1 := hc.1
+  simp only [List.nil_append] at h1
+  rw [h1]
+  simp [Lemmas.Uses.dir0, Entry.dir]
+
 /-- **uses_adds_only_copies.**  Without the freshness assumptions (a name collision is an error
 recorded on the using entry and the colliding child is dropped): every child of the using entry
 after the step is one of its former children or one of the grouping's own children, unchanged.
@@ -324,6 +454,33 @@ theorem later_uses_same (env : Env) (fuel : Nat) (groot : Mod) (gscope gscope' :
     toEntry env (fuel + 1) groot gscope' g visiting' st = (e, st) :=
   ⟨Lemmas.Uses.toEntry_grouping_cached env fuel groot gscope g visiting st k e hkw h,
    Lemmas.Uses.toEntry_grouping_cached env fuel groot gscope' g visiting' st k e hkw h⟩
+
+/-- **cache_miss_stores.**  What the two caches hold: a grouping statement (a (sub)module
+statement) that is not in its cache and not under conversion is converted by the fold of
+`grouping_gets_copy` (`module_gets_copy`), and the entry this conversion returns is what it appends
+to the cache — so what a later hit returns (`later_uses_same`, `module_cached_same`) is the entry
+converted earlier, not something else. -/
+theorem cache_miss_stores (env : Env) (fuel : Nat) (root : Mod) (scope : List Stmt) (n : Stmt)
+    (visiting : List NodeId) (st : TState) (hnv : visiting.contains (nodeId root n) = false) :
+    (n.kw = "grouping" → st.gcache.find? (·.1 == nodeId root n) = none →
+      ∃ st' : TState, (toEntry env (fuel + 1) root scope n visiting st).2 =
+        { st' with gcache := st'.gcache ++ [(nodeId root n, (toEntry env (fuel + 1) root scope n visiting st).1)] }) ∧
+    (n.kw = "module" ∨ n.kw = "submodule" → st.cache.find? (·.1 == root.seq) = none →
+      ∃ st' : TState, (toEntry env (fuel + 1) root scope n visiting st).2 =
+        { st' with cache := st'.cache ++ [(root.seq, (toEntry env (fuel + 1) root scope n visiting st).1)] }) :=
+  ⟨fun hkw hmiss => Lemmas.Uses.toEntry_grouping_stores env fuel root scope n visiting st hkw hmiss hnv,
+   fun hkw hmiss => Lemmas.Uses.toEntry_module_stores env fuel root scope n visiting st hkw hmiss hnv⟩
+
+/-- **module_cached_same.**  A (sub)module that has been converted before is not converted again:
+the module cache answers with the stored entry, from whatever scope and in-progress set, and the
+conversion state stays as it is. -/
+theorem module_cached_same (env : Env) (fuel : Nat) (root : Mod) (scope scope' : List Stmt) (n : Stmt)
+    (visiting visiting' : List NodeId) (st : TState) (k : Nat) (e : Entry) (hkw : n.kw = "module" ∨ n.kw = "submodule")
+    (h : st.cache.find? (·.1 == root.seq) = some (k, e)) :
+    toEntry env (fuel + 1) root scope n visiting st = (e, st) ∧
+    toEntry env (fuel + 1) root scope' n visiting' st = (e, st) :=
+  ⟨Lemmas.Uses.toEntry_module_cached env fuel root scope n visiting st k e hkw h,
+   Lemmas.Uses.toEntry_module_cached env fuel root scope' n visiting' st k e hkw h⟩
 
 /-! ### extras (Entry.Extra, Entry.Exts) — over the small model of Spec/Uses.lean, not the resolver model -/
 
@@ -521,6 +678,54 @@ example : ((denoteGrouping env 40 (gS, m, [mS]) [] {}).map (·.name)).Nodup := b
 example : ∃ tail, (toEntry env 42 m ([] ++ [m.stmt]) c1 [] {}).1.dir = denoteGrouping env 40 (gS, m, [mS]) [] {} ++ tail :=
   container_gets_copy env 40 m [] c1 u1 [] {} (gS, m, [mS]) rfl rfl rfl (by simp) (Or.inl (by decide)) (by decide) rfl
     (by decide +kernel)
+
+-- the search order lists exactly the reached files: the hypothesis of `search_order_complete` holds
+-- of this registry (three loaded files, three names), and the submodule is reached from the module
+example : ReachNamesDistinct reg linked m := names_distinct_of_nodup reg linked m (List.mem_cons_self ..) (by decide)
+example : Reach reg linked m s :=
+  Reach.tail (Reach.refl _) (Spec.Uses.Step.incl (i := incS) (by decide) (by decide) (show incS ∈ [incS] from List.mem_cons_self ..) rfl)
+example : s ∈ searchOrder reg linked m :=
+  search_order_complete reg linked m (names_distinct_of_nodup reg linked m (List.mem_cons_self ..) (by decide)) s
+    (Reach.tail (Reach.refl _) (Spec.Uses.Step.incl (i := incS) (by decide) (by decide) (show incS ∈ [incS] from List.mem_cons_self ..) rfl))
+-- … and back from the submodule to its module
+example : m ∈ searchOrder reg linked s :=
+  search_order_complete reg linked s
+    (names_distinct_of_nodup reg linked s (List.mem_cons_of_mem _ (List.mem_cons_self ..)) (by decide)) m
+    (Reach.tail (Reach.refl _) (Spec.Uses.Step.owner (by decide) (by decide) rfl))
+-- `whole_module_is_searched`: `uses h` written in the submodule sees the module's grouping h
+example : ∃ r, bindGrouping reg linked s [sgS] "h" = some r :=
+  whole_module_is_searched reg linked s [sgS] "h"
+    (names_distinct_of_nodup reg linked s (List.mem_cons_of_mem _ (List.mem_cons_self ..)) (by decide)) (by decide) m
+    (Reach.tail (Reach.refl _) (Spec.Uses.Step.owner (by decide) (by decide) rfl)) hS rfl
+
+-- `grouping_gets_copy` applies to grouping g (its nested `uses h`), `augment_gets_copy` to an
+-- augment statement with `uses h`
+example : ∃ tail, (toEntry env 42 m ([] ++ [m.stmt]) gS [] {}).1.dir =
+    denoteGrouping env 40 (hS, m, [mS]) [nodeId m gS] {} ++ tail :=
+  grouping_gets_copy env 40 m [] gS usesH [] {} (hS, m, [mS]) rfl rfl rfl (by simp) rfl rfl (Or.inl (by decide)) (by decide)
+    rfl (by decide +kernel)
+def augS : Stmt := st "m" "augment" "/p:c1" 9 3 [st "m" "uses" "h" 9 20 []]
+example : ∃ tail, (toEntry env 42 m ([] ++ [m.stmt]) augS [] {}).1.dir = denoteGrouping env 40 (hS, m, [mS]) [] {} ++ tail :=
+  augment_gets_copy env 40 m [] augS (st "m" "uses" "h" 9 20 []) [] {} (hS, m, [mS]) rfl rfl rfl (by simp)
+    (Or.inl (by decide)) (by decide) rfl (by decide +kernel)
+
+/- module t { prefix t; namespace "urn:t"; grouping tg { leaf q { type string; } } uses tg; leaf z { type string; } } -/
+def tgS : Stmt := st "t" "grouping" "tg" 2 3 [st "t" "leaf" "q" 2 15 [ty "t" "string"]]
+def utS : Stmt := st "t" "uses" "tg" 3 3 []
+def tS : Stmt := st "t" "module" "t" 1 1
+  [st "t" "prefix" "t" 1 12 [], st "t" "namespace" "urn:t" 1 20 [], tgS, utS, st "t" "leaf" "z" 4 3 [ty "t" "string"]]
+def t : Mod := { seq := 0, stmt := tS }
+def envT : Env := { reg := { mods := [t], modules := [("t", 0)] }, tres := typesLite, linked := [0] }
+-- `module_gets_copy` applies to module t: its entry starts with the grouping's leaf q, then z
+example : ∃ tail, (toEntry envT 42 t [] t.stmt [] {}).1.dir = denoteGrouping envT 40 (tgS, t, [tS]) [nodeId t tS] {} ++ tail :=
+  module_gets_copy envT 40 t utS [] {} (tgS, t, [tS]) (Or.inl rfl) rfl rfl rfl rfl (Or.inl (by decide)) (by decide) rfl
+    (by decide +kernel)
+example : (toEntry envT 42 t [] t.stmt [] {}).1.dir.map (·.name) = ["q", "z"] := by decide +kernel
+-- the module cache after that conversion holds the entry it returned (`cache_miss_stores`), and a
+-- second conversion answers from it (`module_cached_same`)
+example : (toEntry envT 42 t [] t.stmt [] {}).2.cache.map (·.1) = [0] := by decide +kernel
+example (e : Entry) : toEntry envT 42 t [] t.stmt [] { cache := [(0, e)] } = (e, { cache := [(0, e)] }) :=
+  (module_cached_same envT 41 t [] [] t.stmt [] [] { cache := [(0, e)] } 0 e (Or.inl rfl) rfl).1
 end Ex
 
 /-! A prefix is scoped per file: submodule `ms` (belongs-to main { prefix ms; }) imports `q` under
@@ -549,5 +754,51 @@ example : bindGrouping reg [0, 1, 2] sub [subTop] "params" = some (mainParams, m
 example : (findGrouping reg [0, 1, 2] 200 sub [subTop, subS] "m:params" []).1 = some (qParams, q, [qS]) :=
   (uses_binds_import reg [0, 1, 2] sub [subTop] "m:params" 200 (by decide) (by decide) (by decide) (by decide) (by decide)).trans rfl
 end ExP
+
+/-! The marks of the search are names.  Module `m` includes submodules `a` and `m` (a submodule
+named like its module — against RFC 7950 5.1, but goyang loads it: modules and submodules are kept in
+two tables).  Seen from submodule `a`, the walk goes to the owner `m` (marks "m"), from there to `a`
+(marks "a") and skips the include of submodule `m`, whose name is marked: that file is reached but not
+searched, and a grouping declared there is not found.  Go's `FindGrouping` does the same (it marks
+`Module.Name`); `Process` reports "unknown group" for `uses g` written in `a` — together with a
+circular-dependency error for `include m` in module `m`, so no tree is handed out for such a set. -/
+namespace ExN
+def st (file kw arg : String) (l c : Nat) (subs : List Stmt) : Stmt := .mk kw true arg file l c subs
+def gS : Stmt := st "S" "grouping" "g" 2 3 [st "S" "leaf" "x" 2 15 [st "S" "type" "string" 2 20 []]]
+def mS : Stmt := st "M" "module" "m" 1 1
+  [st "M" "prefix" "p" 1 12 [], st "M" "namespace" "urn:m" 1 20 [], st "M" "include" "a" 2 3 [], st "M" "include" "m" 3 3 []]
+def aS : Stmt := st "A" "submodule" "a" 1 1
+  [st "A" "belongs-to" "m" 1 12 [st "A" "prefix" "p" 1 20 []], st "A" "container" "c" 2 3 [st "A" "uses" "g" 2 15 []]]
+def smS : Stmt := st "S" "submodule" "m" 1 1 [st "S" "belongs-to" "m" 1 12 [st "S" "prefix" "p" 1 20 []], gS]
+def m : Mod := { seq := 0, stmt := mS }
+def a : Mod := { seq := 1, stmt := aS }
+def sm : Mod := { seq := 2, stmt := smS }
+def reg : Registry := { mods := [m, a, sm], modules := [("m", 0)], subModules := [("a", 1), ("m", 2)] }
+
+theorem reached : Reach reg [0, 1, 2] a sm :=
+  Reach.tail (Reach.tail (Reach.refl _) (Spec.Uses.Step.owner (by decide) (by decide) rfl))
+    (Spec.Uses.Step.incl (i := st "M" "include" "m" 3 3 []) (by decide) (by decide)
+      (show st "M" "include" "m" 3 3 [] ∈ [st "M" "include" "a" 2 3 [], st "M" "include" "m" 3 3 []] by simp) rfl)
+
+theorem order : (searchOrder reg [0, 1, 2] a).map (·.seq) = [1, 0, 1] := by decide +kernel
+
+example : bindGrouping reg [0, 1, 2] a [st "A" "container" "c" 2 3 [st "A" "uses" "g" 2 15 []]] "g" = none := by
+  decide +kernel
+example : (findGrouping reg [0, 1, 2] 200 a [st "A" "container" "c" 2 3 [st "A" "uses" "g" 2 15 []], aS] "g" []).1 = none :=
+  (uses_binds_lexically reg [0, 1, 2] a [st "A" "container" "c" 2 3 [st "A" "uses" "g" 2 15 []]] "g" 200
+    (by decide) (by decide) (by decide)).trans (by decide +kernel)
+end ExN
+
+/-- **search_order_needs_distinct_names.**  Without the hypothesis on the names,
+`search_order_complete` is false: in `ExN.reg` the submodule named `m` is reached from submodule
+`a` and is not in the search order from `a`. -/
+theorem search_order_needs_distinct_names :
+    ∃ (reg : Registry) (linked : List Nat) (m x : Mod), Reach reg linked m x ∧ x ∉ searchOrder reg linked m := by
+  refine ⟨ExN.reg, [0, 1, 2], ExN.a, ExN.sm, ExN.reached, ?_⟩
+  intro h
+  have h2 : ExN.sm.seq ∈ (searchOrder ExN.reg [0, 1, 2] ExN.a).map (·.seq) := List.mem_map_of_mem h
+  rw [ExN.order] at h2
+  revert h2
+  decide
 
 end Goyang.Props.C06
